@@ -3,7 +3,7 @@
    Model: Model/EsClient.v (retry machine [handle]/[lineage], batcher [bstep], token pool machine [mstep]);
    statement as a decision procedure on observations: Judge/E7.v [spec_c14] with the closed form [fate]. *)
 From Coq Require Import List ZArith Bool Arith Lia.
-From FB Require Import Lib.Sexp Lib.Eqb Lib.E7Lib Model.EsClient Judge.E7 Proofs.EsProofs Proofs.EsSpecProofs.
+From FB Require Import Lib.Sexp Lib.Eqb Lib.E7Lib Model.EsClient Judge.E7 Proofs.EsProofs Proofs.EsSpecProofs Proofs.EsSchedProofs.
 Import ListNotations.
 Open Scope Z_scope.
 
@@ -63,6 +63,18 @@ Theorem C14_pool : forall cfg sc sch s,
   mrun cfg sc (m_init cfg) sch = Some s ->
   (in_flight s + m_tokens s = workers cfg)%nat /\ (in_flight s <= workers cfg)%nat.
 Proof. exact pool_bound. Qed.
+
+(* EVERY complete schedule of the machine - any interleaving of arrivals, timer firings, Shutdown, token
+   acquisitions, responses and token releases after which no goroutine waits or runs - yields, as multisets (counted
+   under every predicate), exactly the answers and the bulk requests of the schedule-free semantics [es_run] on the
+   arrivals of that schedule.  So C14_answered_once / C14_batch_shape / C14_spec_model, stated for [es_run], hold for
+   every interleaving. *)
+Theorem C14_schedule_independent : forall cfg sc sch s,
+  mrun cfg sc (m_init cfg) sch = Some s -> quiescent s = true ->
+  let r := es_run cfg sc (sched_ops sch) false in
+  (forall pa, length (filter pa (m_answers s)) = length (filter pa (e_answers r)))
+  /\ (forall pc, length (filter pc (m_calls s)) = length (filter pc (e_calls r))).
+Proof. exact schedule_independent. Qed.
 
 (* logical timer: when arrivals pause the pending batch is sent as one batch and nothing stays pending; an arrival
    never sends a partial batch (the timer is re-armed by every arrival), it sends exactly when the batch is full *)
@@ -163,7 +175,20 @@ Example C14_pool_example :
   /\ mrun cfg [] (m_init cfg) [AOp (OpDoc (d 0)); AOp (OpDoc (d 1)); AAcquire 0; AAcquire 0] = None.
 Proof. vm_compute. split; [eexists; repeat split|reflexivity]. Qed.
 
+(* a complete schedule: two batches of one document with one worker; the first is retried once *)
+Example C14_schedule_example :
+  let cfg := {| batch_size := 1; max_retries := 1; workers := 1 |} in
+  let d k := {| d_id := k; d_idx := 0; d_hasid := 0; d_body := 0 |} in
+  let sc := [(0, [(ORetry, false)])] in
+  exists s, mrun cfg sc (m_init cfg)
+              [AOp (OpDoc (d 0)); AOp (OpDoc (d 1)); AAcquire 1; ARespond 0; ARelease 0; AAcquire 0; ARespond 0; AShutdown;
+               ARelease 0; AAcquire 0; ARespond 0; ARelease 0] = Some s
+            /\ quiescent s = true /\ m_answers s = [(1, ASuccess); (0, ASuccess)]
+            /\ m_calls s = [[d 1]; [d 0]; [d 0]].
+Proof. vm_compute. eexists; repeat split. Qed.
+
 Print Assumptions C14_answered_once.
+Print Assumptions C14_schedule_independent.
 Print Assumptions C14_answered_once_from.
 Print Assumptions C14_fate_meaning.
 Print Assumptions C14_late_harmless.
